@@ -66,7 +66,9 @@ def replay_cases(ctx):
 
 # ============================================================================================== C28
 
-NAMES28 = "abcdefgh"
+# multi-character names whose byte order is the numeric order of the spec's names: `ab` (2) at the root and `a/b` (1/3)
+# are directories whose parent path and name concatenate to the same string
+NAMES28 = ["a", "ab", "b", "bc", "c", "d", "e", "f"]
 
 
 def rt_name(n):
@@ -246,6 +248,8 @@ def run_c28(ctx):
             # one TLC run: invariants of the algorithm model + case generation + the conflict note
             r = vlib.tlc(ctx, "RemoteTree", "GEN_RemoteTree_3.cfg", workers=8, timeout=600)
             notes = r.notes
+            process(r.cases, 3000)
+            r = vlib.tlc(ctx, "RemoteTree", "GEN_RemoteTree_3c.cfg", workers=8, timeout=600)
             process(r.cases, 3000)
         else:
             vlib.tlc(ctx, "RemoteTree", "MC_RemoteTree.cfg", workers=8)
